@@ -6,6 +6,7 @@ EXPLANATION = (
     "block rules, run/segment loaders, CSR lookups, node vs edge property overlays and store readers) has equal feature sets — callees, "
     "fields touched, comparison kinds — under the src<->dst / node<->edge renaming. A filter, tombstone check or blocked-node test dropped in "
     "one direction only shows up as a feature present in one sibling and absent in the other. It does not decide that either direction is right."
+    " C06.2 additionally decides that the tombstone sets of MemTable / L0Run only grow (insert / extend) or are moved whole into the frozen run: a run's tombstone is what hides older copies of the key."
 )
 
 S = "nervusdb_storage::"
